@@ -21,7 +21,8 @@ from simgriffe.seams import World, purge_modules
 
 PK, EXT, PRIV, EXT2 = "c15pk", "c15ext", "_c15pk", "c15ext2"
 PYC_TOP = "c15pyc"  # a top-level module that exists only as (real, importable) sourceless bytecode
-WORLD_TOPS = {PK, EXT, PRIV, EXT2, PYC_TOP, "c15missingdep"}
+PTH_HOOK = "c15hook"  # a module named by an `import` line of a .pth file in the search path
+WORLD_TOPS = {PK, EXT, PRIV, EXT2, PYC_TOP, PTH_HOOK, "c15missingdep"}
 FAULTS = ["exception", "importerror", "systemexit", "sysexit", "kbi", "missingdep", "recursion", "baseexc"]
 COMPILED_SUFFIXES = (".so", ".pyd", ".pyc")
 
@@ -95,6 +96,8 @@ def generate(rng, opts):
     cfg["pkgutil_init"] = rng.random() < 0.2
     # the import system can import it, the static finder cannot see it
     cfg["pyc_top"] = rng.random() < 0.2
+    # site-packages style: a .pth file whose `import x` line CPython's site module would execute at start-up
+    cfg["pth_import"] = rng.random() < 0.2
     std = None
     if rng.random() < 0.25:
         # a sub-package named like a standard-library package, holding compiled modules named like that package's own
@@ -143,7 +146,7 @@ def generate(rng, opts):
         }
         ops.append(op)
     # a long-lived process does not clean sys.modules between two loads
-    return {"world": {"modules": modules, "compiled": compiled, "stubs": stubs, "pkgutil_init": cfg["pkgutil_init"], "pyc_top": cfg["pyc_top"]}, "ops": ops, "cfg": cfg, "keep_modules": rng.random() < 0.4,
+    return {"world": {"modules": modules, "compiled": compiled, "stubs": stubs, "pkgutil_init": cfg["pkgutil_init"], "pyc_top": cfg["pyc_top"], "pth_import": cfg["pth_import"]}, "ops": ops, "cfg": cfg, "keep_modules": rng.random() < 0.4,
             # the user (or the tool embedding Griffe) already has the package directory on sys.path
             "sp_on_sys_path": rng.random() < 0.3}
 
@@ -197,6 +200,9 @@ def render_world(world):
             files[rel] = ("# -*- coding: latin-1 -*-\n# caf\xe9\n" + "\n".join(lines) + "\n").replace("<ROOT>", "<ROOT>").encode("latin-1")
         else:
             files[rel] = "\n".join(lines) + "\n"
+    if world.get("pth_import"):
+        files["zz_hook.pth"] = f"# installed by some tool\nimport {PTH_HOOK}\n"
+        files[f"{PTH_HOOK}.py"] = "\n".join(["import os", f"open(os.path.join('<ROOT>', 'sp0', 'sent', {PTH_HOOK!r}), 'w').close()", f"import {PK}", "MAPPING = {}", ""])
     if world.get("pyc_top"):
         # compiled to sourceless bytecode when the world is set up (the path of the sentinel is only known then)
         files[f"{PYC_TOP}.py"] = "\n".join(["import os", f"open(os.path.join('<ROOT>', 'sp0', 'sent', {PYC_TOP!r}), 'w').close()", "", "def fast():", "    return 1", ""])
